@@ -29,6 +29,12 @@ def build_scripts(ctx, scale):
         pool = Pool(b, ctx.rng.fork('pool-' + b), n_rand=3 * scale); lines = []
         bases = [IDENT, T2REP, pool.base[0], t2_translate(pool.base[0]), pool.derived[0]] + [pool.pick(ctx.rng) for _ in range(2 * scale)]
         sc = scalars(ctx.rng, scale)
+        # the special scalars (0, 1, 2, 3, r-1, r-2, ...) meet a NON-identity base in EVERY operator form (element and affine)
+        for k in sc[:8]:
+            for p in (bases[2], bases[4]):
+                for op in SM[b]: lines.append('%s %s %x' % (op, E(p), k))
+                if b == 'ark':
+                    for op in AFSM: lines.append('%s %s %x' % (op, Af(pyref.aff(p)), k))
         for i, k in enumerate(sc):
             p = bases[i % len(bases)]
             for op in (SM[b] if i < 12 else [ctx.rng.choice(SM[b])]): lines.append('%s %s %x' % (op, E(p), k))
@@ -63,6 +69,13 @@ def search(ctx, scale, hints):
             p = bases[i % len(bases)]
             for op in SM[b]:
                 lines.append('%s %s %x' % (op, E(p), k)); exp.append(pyref.smul(k, pyref.aff(p)))
+            if b == 'ark':
+                for op in AFSM:
+                    lines.append('%s %s %x' % (op, Af(pyref.aff(p)), k)); exp.append(pyref.smul(k, pyref.aff(p)))
+        for k in scalars(ctx.rng, 1)[:8]:         # special scalars on non-identity bases, every form
+            for p in (bases[0], bases[2]):
+                for op in SM[b] + (AFSM if b == 'ark' else []):
+                    lines.append('%s %s %x' % (op, E(p) if op.startswith('el.') else Af(pyref.aff(p)), k)); exp.append(pyref.smul(k, pyref.aff(p)))
         for i, l in enumerate(limb_lists(ctx.rng, scale)):
             p = bases[i % len(bases)]; v = sum(x << (64 * j) for j, x in enumerate(l))
             for op in (['el.mul_bigint'] if b == 'ark' else ['el.scalar_mul', 'el.scalar_mul_vartime']):
